@@ -19,21 +19,9 @@ def showBins : PyR BinsResult → String
   | .ok (.many s) => s!"ok many {showRuns (Spec.normRuns s)}"
   | .error _ => "err ValueError"
 
-def ops : List (String × Op) := [
-  ("bins", do
-      let s ← pInt; let e ← pInt; let f ← pFmt; let one ← pBool
-      pure (showBins (bins s e f one))),
-  ("binpair", do
-      let qs ← pInt; let qe ← pInt; let fs ← pInt; let fe ← pInt; let f ← pFmt
-      match bins qs qe f false, bins fs fe f true with
-      | .ok (.many S), .ok (.one b) => pure s!"ok {showBool (S.mem b)}"
-      | _, _ => pure "err TypeError"),
-  -- the bin stored on an interval object at construction: bins(start, end, fmt="bed")
-  ("objbin", do
-      let _kind ← tok; let s ← pInt; let e ← pInt
-      pure (showBins (bins s e .bed true))),
-  -- `_query_by_position` on children given as lists of member spans (pure-Python branch)
-  ("bquery", do
+/-- body of the `bquery` op (shared with `bqueryk`, whose four leading ints — chunk window and collection bounds —
+    do not enter the expected answer: membership is decided on chromosome coordinates) -/
+def bqBody : Op := do
       let cw ← pBool; let qs ← pInt; let qe ← pInt
       let kids ← pList (do let _k ← tok; pList pIntPair)
       -- `if completely_within and start and end` (Python truthiness of ints)
@@ -53,6 +41,23 @@ def ops : List (String × Op) := [
           let spanOk := if cw then decide (qs ≤ cs ∧ ce ≤ qe ∧ cs < ce ∧ qs < qe) else decide (cs < qe ∧ qs < ce ∧ cs < ce ∧ qs < qe)
           binOk && spanOk
       let idx := (List.range kids.length).filter (fun i => match kids[i]? with | some m => keep m | none => false)
-      pure ("ok " ++ " ".intercalate (idx.map toString)))
+      pure ("ok " ++ " ".intercalate (idx.map toString))
+
+def ops : List (String × Op) := [
+  ("bins", do
+      let s ← pInt; let e ← pInt; let f ← pFmt; let one ← pBool
+      pure (showBins (bins s e f one))),
+  ("binpair", do
+      let qs ← pInt; let qe ← pInt; let fs ← pInt; let fe ← pInt; let f ← pFmt
+      match bins qs qe f false, bins fs fe f true with
+      | .ok (.many S), .ok (.one b) => pure s!"ok {showBool (S.mem b)}"
+      | _, _ => pure "err TypeError"),
+  -- the bin stored on an interval object at construction: bins(start, end, fmt="bed")
+  ("objbin", do
+      let _kind ← tok; let s ← pInt; let e ← pInt
+      pure (showBins (bins s e .bed true))),
+  -- `_query_by_position` on children given as lists of member spans (pure-Python branch)
+  ("bquery", bqBody),
+  ("bqueryk", do let _ ← pInt; let _ ← pInt; let _ ← pInt; let _ ← pInt; bqBody)
 ]
 end BioCantor.Driver.Bins
